@@ -25,6 +25,7 @@ def run(repo, report, tier):
     report.guard("C08.R2", "AdapterIndex._make_index", r2_ambiguity, repo, report)
     report.guard("C08.R3", "AdapterIndex._match_to_multiple_lengths", r3_bestof, repo, report)
     report.guard("C08.R4", "AdapterIndex eligibility", r4_eligibility, repo, report)
+    report.guard("C08.R4", "regrouping", r4_regroup, repo, report)
     report.guard("C08.R5", "N fallback", r5_nfallback, repo, report)
     report.notes.append("Not decided: completeness of the neighbourhood enumerators (C-level DP), the 'exactly one adapter within tolerance' clause (about concrete strings).")
 
@@ -521,3 +522,16 @@ def r5_nfallback(repo, report):
             bad.append(("result", ret))
     report.ob("C08.R5", "_lookup_with_n", not bad and len(rows) == 3, facts={"paths": len(rows), "problems": [str(b)[:240] for b in bad[:2]]},
               expected="candidate = index[affix with N -> A]; re-align candidate adapter with the real affix; (adapter, match.errors, match.score) or None", loc=repo.loc(ln), cases=len(rows), why=str(bad[0])[:200] if bad else "")
+
+
+def r4_regroup(repo, report):
+    """with the index every given adapter is still searched exactly once (same construct as C09.R1)"""
+    from ..core import Report
+    from . import c09
+
+    tmp = Report("C08", report.tier)
+    c09.r1_best(repo, tmp)
+    hit = [o for o in tmp.obligations if "_regroup_into_indexed_adapters" in o.construct or o.construct == "AdapterCutter adapter list"]
+    for o in hit:
+        report.ob("C08.R4", o.construct, None if o.state == "UNRECOGNISED" else o.state == "DISCHARGED", facts=o.facts, expected=o.expected, loc=o.loc, why=o.why, cases=o.cases)
+    report.floor("C08.R4", "regrouping obligations", len(hit), 3)
